@@ -2,6 +2,7 @@ import Pyunicorn.Model.Proto
 import Pyunicorn.Model.Access
 import Pyunicorn.Model.WhileKernels
 import Pyunicorn.Generated.StructC20Pyx
+import Pyunicorn.Generated.StructC20Py
 /-! Line-protocol driver of C20: access traces / verdicts of the raw-pointer
 routines and outcomes of the `while` kernels. -/
 open Pyunicorn Pyunicorn.Proto Pyunicorn.Access
@@ -115,6 +116,11 @@ def answer (toks : List String) : String :=
       (tmiCall n.toNat! t.toNat! n2.toNat! t2.toNat! nb.toInt! (odata dO) (odata dS)).str
   | ["call", "mi", n, t, nb, zdiv, sc, rm, d] =>
       (miCall n.toNat! t.toNat! nb.toInt! (zdiv == "1") (orat sc) (orat rm) (odata d)).str
+  | ["call", "miobj", objn, n, t, nb, zdiv, sc, rm, d] =>
+      -- the same call on an object with `self.N = objn`: the integers handed to the kernel are
+      -- taken from where the *generated* table `mi_pysizes` says
+      (miObjCall Pyunicorn.Generated.StructC20Py.mi_pysizes objn.toNat! n.toNat! t.toNat! nb.toInt!
+        (zdiv == "1") (orat sc) (orat rm) (odata d)).str
   | ["call", "vcfb", n, i, na] => (vcfbCall n.toNat! i.toInt! na.toNat!).str
   | ["call", "ecfb", n, na] => (ecfbCall n.toNat! na.toNat!).str
   | ["adaptive", n, a, sn, ord, rec] =>
